@@ -188,6 +188,12 @@ ElemAttribute::startElement(StylesheetExecutionContext& executionContext) const
                 // longer.
                 indexOfNSSep = origAttrNameLength;
             }
+            else if (equals(attrNameSpace, DOMServices::s_XMLNamespaceURI) == true &&
+                     startsWith(origAttrName, DOMServices::s_XMLStringWithSeparator) == true)
+            {
+                // xml:lang etc. with the namespace of the xml prefix given
+                // explicitly: the prefix is bound by definition.
+            }
             else
             {
                 // See if the namespace already exists.  If it does, we'll get the
@@ -225,9 +231,11 @@ ElemAttribute::startElement(StylesheetExecutionContext& executionContext) const
 
                     XalanDOMString&     newPrefix = newPrefixGuard.get();
 
-                    // If the prefix on the QName is xmlns, we cannot use it.
+                    // If the prefix on the QName is xmlns or xml, we cannot use it,
+                    // since neither can be declared for another namespace.
                     const bool          fPrefixIsXMLNS =
-                        startsWith(origAttrName, DOMServices::s_XMLNamespaceWithSeparator);
+                        startsWith(origAttrName, DOMServices::s_XMLNamespaceWithSeparator) ||
+                        startsWith(origAttrName, DOMServices::s_XMLStringWithSeparator);
 
                     // If there's a prefix, and it's not xmlns, then use
                     // the prefix that's provided.
@@ -295,9 +303,9 @@ ElemAttribute::startElement(StylesheetExecutionContext& executionContext) const
         else if(executionContext.isElementPending() == true &&
                 !equals(origAttrName, DOMServices::s_XMLNamespace))
         {
-            // Don't try to create a namespace declaration for anything that
-            // starts with xml:
-            if (startsWith(origAttrName, DOMServices::s_XMLString) == true)
+            // Don't try to create a namespace declaration for the prefix xml
+            // (other prefixes that merely begin with "xml" are ordinary prefixes):
+            if (startsWith(origAttrName, DOMServices::s_XMLStringWithSeparator) == true)
             {
                 // This just fakes out the test below.  It would be better if
                 // we had a better way of testing this...
@@ -496,6 +504,12 @@ ElemAttribute::execute(StylesheetExecutionContext&  executionContext) const
                 // longer.
                 indexOfNSSep = origAttrNameLength;
             }
+            else if (equals(attrNameSpace, DOMServices::s_XMLNamespaceURI) == true &&
+                     startsWith(origAttrName, DOMServices::s_XMLStringWithSeparator) == true)
+            {
+                // xml:lang etc. with the namespace of the xml prefix given
+                // explicitly: the prefix is bound by definition.
+            }
             else
             {
                 // See if the namespace already exists.  If it does, we'll get the
@@ -536,9 +550,11 @@ ElemAttribute::execute(StylesheetExecutionContext&  executionContext) const
 
                     XalanDOMString&     newPrefix = newPrefixGuard.get();
 
-                    // If the prefix on the QName is xmlns, we cannot use it.
+                    // If the prefix on the QName is xmlns or xml, we cannot use it,
+                    // since neither can be declared for another namespace.
                     const bool          fPrefixIsXMLNS =
-                        startsWith(origAttrName, DOMServices::s_XMLNamespaceWithSeparator);
+                        startsWith(origAttrName, DOMServices::s_XMLNamespaceWithSeparator) ||
+                        startsWith(origAttrName, DOMServices::s_XMLStringWithSeparator);
 
                     // If there's a prefix, and it's not xmlns, then use
                     // the prefix that's provided.
@@ -607,9 +623,9 @@ ElemAttribute::execute(StylesheetExecutionContext&  executionContext) const
         else if(executionContext.isElementPending() == true &&
                 !equals(origAttrName, DOMServices::s_XMLNamespace))
         {
-            // Don't try to create a namespace declaration for anything that
-            // starts with xml:
-            if (startsWith(origAttrName, DOMServices::s_XMLString) == true)
+            // Don't try to create a namespace declaration for the prefix xml
+            // (other prefixes that merely begin with "xml" are ordinary prefixes):
+            if (startsWith(origAttrName, DOMServices::s_XMLStringWithSeparator) == true)
             {
                 // This just fakes out the test below.  It would be better if
                 // we had a better way of testing this...
